@@ -12,6 +12,15 @@ pub mod vars_secondary;
 pub mod vars_timestamp;
 use crate::version::zerv::bump::precedence::Precedence;
 
+/// Add a bump amount; a result that does not fit in u64 is an error instead of an overflow
+pub(crate) fn checked_bump(current: u64, increment: u64, what: &str) -> Result<u64, ZervError> {
+    current.checked_add(increment).ok_or_else(|| {
+        ZervError::InvalidArgument(format!(
+            "Cannot bump {what}: {current} + {increment} does not fit in 64 bits"
+        ))
+    })
+}
+
 impl Zerv {
     pub fn apply_component_processing(&mut self, args: &ResolvedArgs) -> Result<(), ZervError> {
         let precedence_order: Vec<Precedence> =
